@@ -20,10 +20,10 @@ for fam in fams:
             vs = [dict(name="O1", args=["-O1"], src=src), dict(name="O0", args=["-O0"], src=src)]
         else:
             vs = [dict(name="O0", args=["-O0"], src=src), dict(name="O1", args=["-O1"], src=src)]
-        cases.append(dict(id=cid, fam=p["fam"], body=p["body"], fnames=fn, variants=vs))
+        cases.append(dict(id=cid, fam=p["fam"], body=p["body"], fnames=fn, variants=vs, locals=p.get("locals")))
         bodies[cid] = p["body"]
     pl = refine.Pipeline("bl_" + fam, tier="thorough")
-    pl.run(cases, sem=(pid == "C01"), pair=(pid != "C01"), maxin=48, timeout=7000, small_fams=checks_refine.SMALL_FAMS)
+    pl.run(cases, sem=(pid == "C01"), pair=(pid != "C01"), maxin=48, timeout=7000, small_fams=checks_refine.SMALL_FAMS, defined_only=(pid != "C01"))
     bad = {}
     for m in pl.mismatches:
         bad.setdefault(m["id"], []).append(m)
